@@ -83,7 +83,7 @@ CLAIMED.update({
         "One-step obligations of the interrupt/STOP/END/CONT bookkeeping from an arbitrary state (all 10 VM states, symbolic pc / entry address / stack contents): interrupt() saves exactly the "
         "interrupted state and position when inside the program, END/STOP save a continuation exactly when inside the program, CONT restores state and pc and consumes the continuation, a direct "
         "statement never disturbs a saved continuation, BREAK is reported once and leaves the VM stopped. execute()-level harnesses use a concrete control skeleton (which opcode, which position) with symbolic data. "
-        "Quantum independence over compiled programs is outside this check.",
+        "A 4-instruction opcode program with symbolic operands ends in the same VM state whether run in one slice or two; slice independence over compiled programs is outside this check.",
         SCRATCH_NOTE + VSHIM_NOTE, STEP + "one VM step from a symbolic pre-state", "§4 C13"),
     "C14": (
         "RENUM's numbering for ALL argument triples over a 2-line listing with arbitrary numbers (fails and changes nothing, or keeps lines below old-start and numbers the rest new, new+step in order without collisions and within 65529), "
@@ -104,7 +104,7 @@ CLAIMED.update({
         SCRATCH_NOTE + VSHIM_NOTE, STEP + "symbolic reply characters", "§4 C17"),
     "C18": (
         "Claimed for frames on the value stack: ON consumes exactly its two operands for every value; RETURN leaves nothing of the subroutine behind, also when a FOR loop was abandoned inside it, and hands back exactly one function result; "
-        "RETURN without GOSUB is reported; storing zero frees the variable slot. Pool limits at 65535 entries and per-statement residue over compiled programs are outside this check.",
+        "RETURN without GOSUB is reported; the size-limited stack reports OUT OF MEMORY exactly past 65535 entries for every length (Stack<()>); a failing statement leaves the VM at the prompt with the stack discarded unless the program can be continued; storing zero frees the variable slot. Per-statement residue over compiled programs is outside this check.",
         SCRATCH_NOTE + VSHIM_NOTE, STEP + "one VM step from a symbolic stack", "§4 C18"),
     "C19": (
         "Claimed for the column machinery and the execution gate: a diagnostic's range is shifted by exactly the line-number prefix for every line number and range; parser columns count characters for every Unicode scalar value in a string literal; "
